@@ -241,43 +241,78 @@ def run_layout(kind, thetas, omegas, sigmas, tier, res):
             res["outcomes"][f"layout:refused:{type(e).__name__}"] = res["outcomes"].get(f"layout:refused:{type(e).__name__}", 0) + 1
             return
         res["states"] += 1
-        for elabel, f in edits(m):
-            res["transitions"] += 1
-            res["evaluations"] += 1
+        small = len(thetas) + len(omegas) + len(sigmas) <= 4 and sum(len(r) for r in thetas + omegas + sigmas) <= 70
+        if tier == "thorough":
+            second = None if small else STRUCTURAL  # depth 2: every edit pair on the small layouts, structural-first pairs elsewhere
+        else:
+            second = STRUCTURAL if kind == "omega" and small else ()
+        apply_edits(m, base_code, [thetas, omegas, sigmas], label, (), second, res)
+
+
+STRUCTURAL = ("add_theta", "remove_iiv", "split", "join", "add_iiv")
+
+
+def apply_edits(m, base_code, layout, label, prefix, second, res):
+    """every edit of the menu of m; after an edit whose kind is in `second` (None = every kind) the model is written back
+    (update_source) and every edit of the menu of the result follows (depth 2)"""
+    import pharmpy.modeling as pm
+    from pharmpy.model import ModelError
+
+    thetas, omegas, sigmas = layout
+    for elabel, f in edits(m):
+        full = " ; ".join(prefix + (elabel,))
+        res["transitions"] += 1
+        res["evaluations"] += 1
+        try:
+            m2 = f(m)
+        except (ValueError, NotImplementedError, ModelError, KeyError, IndexError) as e:
+            res["outcomes"][f"edit-refused:{type(e).__name__}"] = res["outcomes"].get(f"edit-refused:{type(e).__name__}", 0) + 1
+            continue
+        except Exception as e:
+            res["outcomes"][f"edit-crash:{type(e).__name__}"] = res["outcomes"].get(f"edit-crash:{type(e).__name__}", 0) + 1
+            continue
+        try:
+            code = m2.code
+        except (ValueError, NotImplementedError, ModelError) as e:
+            res["outcomes"][f"write-refused:{type(e).__name__}"] = res["outcomes"].get(f"write-refused:{type(e).__name__}", 0) + 1
+            continue
+        except Exception as e:
+            # the edit was accepted: writing the result back must not fail with an internal error
+            res["violations"].append({"layout": [thetas, omegas, sigmas], "edit": full,
+                                      "what": f"[{label} : {full}] the edit is accepted but the model cannot be written back: {type(e).__name__}: {str(e)[:100]}",
+                                      "class": f"unwritable:{elabel.split('(')[0]}"})
+            continue
+        try:
+            back = pm.read_model_from_string(code)
+        except Exception as e:
+            res["violations"].append({"layout": [thetas, omegas, sigmas], "edit": full,
+                                      "what": f"[{label} : {full}] generated code cannot be read back: {type(e).__name__}: {str(e)[:100]}",
+                                      "class": f"unreadable:{elabel.split('(')[0]}"})
+            continue
+        diffs = compare(m2, back)
+        diffs.sort(key=lambda d: 0 if d.startswith("VALUE") else 1)
+        res["traces_validated_against_impl"] += 1
+        if code != base_code:
+            res["distinct_nontrivial"] += 1
+        if diffs:
+            res["outcomes"]["mismatch"] = res["outcomes"].get("mismatch", 0) + 1
+            res["violations"].append({"layout": [thetas, omegas, sigmas], "edit": full,
+                                      "what": f"[{label} : {full}] {diffs[0]}", "all": diffs, "class": f"{elabel.split('(')[0]}:{diffs[0].split(':')[0][:30]}"})
+            continue
+        res["outcomes"]["ok"] = res["outcomes"].get("ok", 0) + 1
+        # spelling frame for pure value edits
+        if elabel.startswith(("init(", "fix(", "unfix(", "lower(", "upper(")):
+            lost, tb, ta = spelling_frame(base_code, code, m, elabel)
+            if lost > 3:
+                res["violations"].append({"layout": [thetas, omegas, sigmas], "edit": full,
+                                          "what": f"[{label} : {full}] {lost} numeric tokens of the parameter records were respelled although one value changed: {tb} -> {ta}",
+                                          "class": f"spelling:{elabel.split('(')[0]}"})
+        if not prefix and code != base_code and (second is None or elabel.split("(")[0] in second):
             try:
-                m2 = f(m)
-                code = m2.code
-            except (ValueError, NotImplementedError, ModelError, KeyError, IndexError) as e:
-                res["outcomes"][f"edit-refused:{type(e).__name__}"] = res["outcomes"].get(f"edit-refused:{type(e).__name__}", 0) + 1
+                m3 = m2.update_source()
+            except Exception:
                 continue
-            except Exception as e:
-                res["outcomes"][f"edit-crash:{type(e).__name__}"] = res["outcomes"].get(f"edit-crash:{type(e).__name__}", 0) + 1
-                continue
-            try:
-                back = pm.read_model_from_string(code)
-            except Exception as e:
-                res["violations"].append({"layout": [thetas, omegas, sigmas], "edit": elabel,
-                                          "what": f"[{label} : {elabel}] generated code cannot be read back: {type(e).__name__}: {str(e)[:100]}",
-                                          "class": f"unreadable:{elabel.split('(')[0]}"})
-                continue
-            diffs = compare(m2, back)
-            diffs.sort(key=lambda d: 0 if d.startswith("VALUE") else 1)
-            res["traces_validated_against_impl"] += 1
-            if code != base_code:
-                res["distinct_nontrivial"] += 1
-            if diffs:
-                res["outcomes"]["mismatch"] = res["outcomes"].get("mismatch", 0) + 1
-                res["violations"].append({"layout": [thetas, omegas, sigmas], "edit": elabel,
-                                          "what": f"[{label} : {elabel}] {diffs[0]}", "all": diffs, "class": f"{elabel.split('(')[0]}:{diffs[0].split(':')[0][:30]}"})
-            else:
-                res["outcomes"]["ok"] = res["outcomes"].get("ok", 0) + 1
-            # spelling frame for pure value edits
-            if elabel.startswith(("init(", "fix(", "unfix(", "lower(", "upper(")):
-                lost, tb, ta = spelling_frame(base_code, code, m, elabel)
-                if lost > 3:
-                    res["violations"].append({"layout": [thetas, omegas, sigmas], "edit": elabel,
-                                              "what": f"[{label} : {elabel}] {lost} numeric tokens of the parameter records were respelled although one value changed: {tb} -> {ta}",
-                                              "class": f"spelling:{elabel.split('(')[0]}"})
+            apply_edits(m3, code, layout, label, (elabel,), (), res)
 
 
 def run_shard(shard, tier):
@@ -295,7 +330,7 @@ def replay(w):
     res = {"states": 0, "transitions": 0, "evaluations": 0, "distinct_nontrivial": 0, "violations": [], "samples": [],
            "outcomes": {}, "traces_validated_against_impl": 0}
     th, om, sg = w["layout"]
-    run_layout("replay", th, om, sg, "quick", res)
+    run_layout("omega" if " ; " in w["edit"] else "replay", th, om, sg, "thorough" if " ; " in w["edit"] else "quick", res)
     return [v["what"] for v in res["violations"] if v["edit"] == w["edit"]]
 
 
